@@ -403,6 +403,10 @@ func c08Child(ctx *runCtx, spec string) {
 		c08JanitorChild(ctx, spec)
 		return
 	}
+	if strings.HasPrefix(spec, "leaserace ") {
+		c08LeaseRaceChild(ctx, spec)
+		return
+	}
 	if strings.HasPrefix(spec, "evict ") {
 		c08EvictChild(ctx, spec)
 		return
@@ -483,7 +487,9 @@ func c08Run(ctx *runCtx) int {
 		batch{Spec: fmt.Sprintf("evict N=2 R=2 workers=96 rounds=%d seed=%d", er, ctx.seed*100+60), Timeout: 20 * time.Minute},
 		batch{Spec: fmt.Sprintf("evict N=3 R=1 workers=64 rounds=%d seed=%d", er, ctx.seed*100+61), Timeout: 20 * time.Minute},
 		batch{Spec: fmt.Sprintf("janitor N=2 R=2 workers=8 rounds=%d seed=%d", er*15, ctx.seed*100+62), Timeout: 20 * time.Minute},
-		batch{Spec: fmt.Sprintf("janitor N=1 R=1 workers=8 rounds=%d seed=%d", er*15, ctx.seed*100+63), Timeout: 20 * time.Minute})
+		batch{Spec: fmt.Sprintf("janitor N=1 R=1 workers=8 rounds=%d seed=%d", er*15, ctx.seed*100+63), Timeout: 20 * time.Minute},
+		batch{Spec: fmt.Sprintf("leaserace N=2 R=2 workers=16 rounds=%d seed=%d", er/4, ctx.seed*100+64), Timeout: 20 * time.Minute},
+		batch{Spec: fmt.Sprintf("leaserace N=1 R=1 workers=16 rounds=%d seed=%d", er/4, ctx.seed*100+65), Timeout: 20 * time.Minute})
 	runBatches(ctx, batches, 4, func(b batch, res batchResult, tail string) {
 		ctx.rep.Violate("c08|member-crashed-or-hung", fmt.Sprintf("child %s died (exit %d timeout=%v): %s", b.Spec, res.ExitCode, res.TimedOut, lastLines(tail, 12)), map[string]interface{}{"batch": b.Spec})
 	})
